@@ -162,23 +162,20 @@ example : NamesOk ff0 (.func 0 [102, 217, 163] (.cons (.global 0 [120, 46, 195, 
 example : ∃ items, lexAll [36, 195, 169] true = .items items ∧ items.map Item.tk = [⟨.tDollarIdent, [36, 195, 169]⟩, errTk] :=
   lex_print ff0 (.dataRef 0 [195, 169] .nil) (by decide +kernel)
 
-/-- accepted: the dangling dot `$a. + 1` (parse.Expr returns the access with the EMPTY key and String() prints it back) -/
+/-- rejected since /repo 8984077: the dangling dot `$a. + 1` (a name after `.` begins with a letter or `_`; before,
+    parse.Expr returned the access with the EMPTY key).  The lexer reports it at the `.` (class 7). -/
 def exDot : Expr := .bin .add 0 (.dataRef 0 [97] (.cons (.key 0 false []) .nil)) (.int 0 1)
-example : printExpr ff0 exDot = [36, 97, 46, 32, 43, 32, 49] ∧ NamesOk ff0 exDot = true := by decide
-example : lexAll [36, 97, 46, 32, 43, 32, 49] true =
-    .items [⟨.tDollarIdent, 2, [36, 97]⟩, ⟨.tDotIdent, 3, [46]⟩, ⟨.tAdd, 5, [43]⟩, ⟨.tInteger, 7, [49]⟩, errItem] := by
-  have h := lex_print_items ff0 exDot (by decide)
-  exact h
+example : printExpr ff0 exDot = [36, 97, 46, 32, 43, 32, 49] ∧ NamesOk ff0 exDot = false := by decide
 
 /-- rejected: a global named `and`, a function named `print`, a key `$9x`, a key `.1a` (an index token), the index `.-3`, a global
-    with an empty FIRST segment `.a` (but `a..b` is fine: the dangling-dot token), the string spellings `'a'b'` and `'a\'` (both of which `unquoteString`
+    with an empty segment `.a`, `a..b`, the string spellings `'a'b'` and `'a\'` (both of which `unquoteString`
     accepts), the float spelling `NaN` -/
 example : NamesOk ff0 (.global 0 [97, 110, 100]) = false := by decide
 example : NamesOk ff0 (.func 0 [112, 114, 105, 110, 116] .nil) = false := by decide
 example : NamesOk ff0 (.dataRef 0 [57, 120] .nil) = false := by decide
 example : NamesOk ff0 (.dataRef 0 [97] (.cons (.key 0 false [49, 97]) .nil)) = false := by decide
 example : NamesOk ff0 (.dataRef 0 [97] (.cons (.index 0 false (-3)) .nil)) = false := by decide
-example : NamesOk ff0 (.global 0 [46, 97]) = false ∧ NamesOk ff0 (.global 0 [97, 46, 46, 98]) = true := by decide
+example : NamesOk ff0 (.global 0 [46, 97]) = false ∧ NamesOk ff0 (.global 0 [97, 46, 46, 98]) = false := by decide
 example : NamesOk ff0 (.str 0 [39, 97, 39, 98, 39] [97, 39, 98]) = false ∧
     Quote.unquoteString [39, 97, 39, 98, 39] = some [97, 39, 98] := by decide
 example : NamesOk ff0 (.str 0 [39, 97, 92, 39] [97]) = false := by decide
